@@ -532,6 +532,41 @@ def c06_r4(ctx: Ctx, rule):
         for l in lossy:
             res.fail(rule.id, "lossy-number-format::%s::%s" % (k, l), ctx.loc(q, arm.test if arm.test is not None else ctx.fn(q).node),
                      "a %s is printed with %s, which keeps 6 significant digits" % (k, l), "0.1234567891 is printed as \"0.123457\"")
+    # a Python bool is printed in the lexical space of xsd:boolean (true / false / 1 / 0): str(True) is "True", which is not
+    arm = arm_for(arms, "bool", subject)
+    if arm is not None:
+        def lexical_ok(e):
+            """does expression e, standing for the bool, print as 1/0 or true/false?"""
+            if isinstance(e, ast.Call) and call_name(e) == "int":
+                return True
+            if isinstance(e, ast.Call) and call_name(e) == "lower":
+                return True
+            if isinstance(e, ast.IfExp) and all(isinstance(x, ast.Constant) and str(x.value) in ("true", "false", "1", "0") for x in (e.body, e.orelse)):
+                return True
+            return False
+        for e in returned_exprs(arm.body):
+            verdicts = []
+            for n in ast.walk(e):
+                if isinstance(n, ast.BinOp) and isinstance(n.op, ast.Mod) and isinstance(n.left, ast.Constant) and isinstance(n.left.value, str):
+                    convs = re.findall(r"%[-#0 +]*\d*(?:\.\d+)?([sdrifgeEGxX])", n.left.value.replace("%%", ""))
+                    args = list(n.right.elts) if isinstance(n.right, ast.Tuple) else [n.right]
+                    for cv, a in zip(convs, args):
+                        if any(isinstance(x, ast.Name) and x.id == (arm.subject or subject) for x in ast.walk(a)):
+                            verdicts.append((cv in "di" or lexical_ok(a), "%%%s of %s" % (cv, norm(a)[:20])))
+                elif isinstance(n, ast.FormattedValue) and any(isinstance(x, ast.Name) and x.id == (arm.subject or subject) for x in ast.walk(n.value)):
+                    spec = norm(n.format_spec) if n.format_spec is not None else ""
+                    verdicts.append(("d" in spec or lexical_ok(n.value), "{%s%s}" % (norm(n.value)[:20], (":" + spec) if spec else "")))
+                elif isinstance(n, ast.Call) and call_name(n) == "format" and isinstance(n.func, ast.Attribute) and isinstance(n.func.value, ast.Constant):
+                    for a in n.args:
+                        if any(isinstance(x, ast.Name) and x.id == (arm.subject or subject) for x in ast.walk(a)):
+                            verdicts.append((":d}" in str(n.func.value.value) or lexical_ok(a), "format(%s)" % norm(a)[:20]))
+                elif isinstance(n, ast.Call) and call_name(n) in ("str", "repr") and n.args and isinstance(n.args[0], ast.Name) and n.args[0].id == (arm.subject or subject) and n is e:
+                    verdicts.append((False, norm(n)))
+            res.ob("bool arm of encoding_provn_value prints the value as %s: inside the lexical space of xsd:boolean: %s" % ([v[1] for v in verdicts] or norm(e)[:40], all(v[0] for v in verdicts)))
+            for okv, what in verdicts:
+                if not okv:
+                    res.fail(rule.id, "bool-lexical-form::%s" % what, ctx.loc(q, e), "a Python bool is printed through %s, i.e. as \"True\" / \"False\", which is not in the lexical space of xsd:boolean" % what,
+                             "ex:flag=True is printed \"True\" %% xsd:boolean: an independent PROV-N reader rejects the literal")
     return res
 
 
